@@ -260,16 +260,19 @@ func (w *slWorker) build() {
 		w.tab.Add(fmt.Sprintf("C%s.report(%s)", r.cid, r.name), func(n engine.Node) (engine.Node, []V) { return w.report(n.(*slNode), r.cid, r.addr, r.inf) })
 	}
 	if w.cfg.Variant == "full" {
-		w.tab.Add("C0.forge(v2,id=9999)", func(n engine.Node) (engine.Node, []V) {
-			// a (malicious) consumer queues a report carrying an update id the provider never issued
-			c := n.(*slNode).clone()
-			c.touchC("0")
-			s := c.C["0"]
-			w.w.CA.K.AppendPendingPacket(s.Ctx, ccv.SlashPacket, &ccv.ConsumerPacketData_SlashPacketData{
-				SlashPacketData: ccv.NewSlashPacketData(abciVal(p.Vals[2], 1), 9999, stakingtypes.Infraction_INFRACTION_DOWNTIME)})
-			c.C["0"] = s
-			return c, nil
-		})
+		for _, inf := range []stakingtypes.Infraction{stakingtypes.Infraction_INFRACTION_DOWNTIME, stakingtypes.Infraction_INFRACTION_DOUBLE_SIGN} {
+			inf := inf
+			w.tab.Add(fmt.Sprintf("C0.forge(v2,id=9999,%s)", strings.TrimPrefix(inf.String(), "INFRACTION_")), func(n engine.Node) (engine.Node, []V) {
+				// a (malicious) consumer queues a report carrying an update id the provider never issued
+				c := n.(*slNode).clone()
+				c.touchC("0")
+				s := c.C["0"]
+				w.w.CA.K.AppendPendingPacket(s.Ctx, ccv.SlashPacket, &ccv.ConsumerPacketData_SlashPacketData{
+					SlashPacketData: ccv.NewSlashPacketData(abciVal(p.Vals[2], 1), 9999, inf)})
+				c.C["0"] = s
+				return c, nil
+			})
+		}
 	}
 	for _, cid := range w.cons {
 		cid := cid
